@@ -231,6 +231,11 @@ func init() {
 		}
 		return nil
 	})
+	reg(vrtPath+"Observe", func(in *Interp, fr *frame, a []Value) Value {
+		label, _ := a[0].(string)
+		in.path.observes = append(in.path.observes, observed{label, a[1]})
+		return nil
+	})
 	reg(vrtPath+"Note", func(in *Interp, fr *frame, a []Value) Value {
 		if s, ok := a[0].(string); ok {
 			in.path.notes = append(in.path.notes, s)
